@@ -219,7 +219,10 @@ impl Property for C01 {
             let m = match guard(|| {
                 let a = glob.is_match(p.as_str());
                 let b = glob.is_match(Path::new(p.as_str()));
-                let c = glob.is_match(CandidatePath::from(p.as_str()));
+                let c1 = glob.is_match(CandidatePath::from(p.as_str()));
+                let c2 = glob.is_match(CandidatePath::from(p.as_str()).into_owned());
+                // a disagreement between the borrowed and the owned candidate shows as c != a
+                let c = if c1 == c2 { c1 } else { !a };
                 (a, b, c)
             }) {
                 Ok(m) => m,
@@ -230,7 +233,7 @@ impl Property for C01 {
             };
             if m.0 != m.1 || m.0 != m.2 {
                 return Err(format!(
-                    "`{}`: is_match({:?}) differs between &str / &Path / CandidatePath: {:?}",
+                    "`{}`: is_match({:?}) differs between &str / &Path / CandidatePath (borrowed and owned): {:?}",
                     text, p, m
                 ));
             }
